@@ -131,6 +131,7 @@ var basicKinds = map[reflect.Kind]bool{
 	reflect.Float64:    true,
 	reflect.Complex64:  true,
 	reflect.Complex128: true,
+	reflect.String:     true,
 }
 
 func (d *Dumper) ValueLit(in any, optFns ...ValueLitOptFn) string {
@@ -159,11 +160,13 @@ func (d *Dumper) ValueLit(in any, optFns ...ValueLitOptFn) string {
 
 	switch tpe.Kind() {
 	case reflect.Ptr:
-		kind := rv.Elem().Kind()
-		if _, ok := basicKinds[kind]; ok {
-			return fmt.Sprintf("func(v %s) *%s { return &v }(%s)", kind, kind, d.ValueLit(rv.Elem(), optFns...))
+		elem := rv.Elem()
+		if _, ok := basicKinds[elem.Kind()]; ok {
+			// the element's own type: a pointer to a named scalar is not a pointer to its kind
+			t := d.ReflectTypeLit(elem.Type())
+			return fmt.Sprintf("func(v %s) *%s { return &v }(%s)", t, t, d.ValueLit(elem, optFns...))
 		}
-		return fmt.Sprintf("&(%s)", d.ValueLit(rv.Elem(), optFns...))
+		return fmt.Sprintf("&(%s)", d.ValueLit(elem, optFns...))
 	case reflect.Struct:
 		buf := bytes.NewBufferString(d.ReflectTypeLit(tpe))
 		buf.WriteString(`{`)
